@@ -188,7 +188,8 @@ def apply_fault(root, step, FST, scratch):
         o = dict(opts, norm=True)
         cands = []
         for x in ast.walk(root.a):
-            for fld in ('value', 'test', 'target', 'func', 'left', 'op', 'operand', 'iter', 'subject', 'context_expr', 'name', 'arg', 'elt', 'key'):
+            for fld in ('value', 'test', 'target', 'func', 'left', 'op', 'operand', 'iter', 'subject', 'context_expr', 'name', 'arg', 'elt', 'key',
+                        'type', 'exc', 'annotation', 'body', 'slice', 'pattern', 'cls', 'orelse', 'right', 'upper', 'returns', 'optional_vars', 'cause', 'msg'):
                 if isinstance(getattr(x, fld, None), ast.AST):
                     cands.append((x.f, fld))
         if not cands:
